@@ -209,6 +209,16 @@ func c11Env(h *c11Host) *env.Env {
 		return fmt.Sprint(a, b)
 	})
 	e.Define("applyv", func(f func(...int64) int64) int64 { h.rec("applyv"); return f(1, 2, 3) })
+	e.Define("applyerr", func(f func(string) (int64, error)) string {
+		n, err := f("in")
+		h.rec("applyerr", n, err)
+		return fmt.Sprint(n, err)
+	})
+	e.Define("applyany", func(f func() (interface{}, bool, *c11Obj, string, []int64)) string {
+		a, b, c, d, l := f()
+		h.rec("applyany", a, b, c == nil, d, l)
+		return fmt.Sprintf("%v|%v|%v|%v|%v|%v", a, b, c == nil, d, l == nil, len(l))
+	})
 	e.Define("each", func(xs []int64, f func(int64)) { h.rec("each", xs); for _, x := range xs { f(x) } })
 	e.Define("obj", c11Obj{N: 10, Name: "o", Tags: []string{"t"}})
 	e.Define("pobj", &c11Obj{N: 20, Name: "p"})
@@ -404,6 +414,15 @@ func c11Cases(rnd *Rand) []c11Case {
 	add("apply(func(x) { return nosuch }, 5)", "apply("+p(int64(5))+") => error", "an error inside the callback is an error of the call")
 	add("apply2(func(a, b) { return a + 1, b + \"!\" })", "apply2("+p(int64(6))+", "+p("s!")+") => "+p(fmt.Sprint(int64(6), "s!")), "callback with two parameters and two results")
 	add("apply2(func(a, b) { return a })", " => error", "callback returning too few results")
+	add("applyerr(func(s) { return 12, nil })", "applyerr("+p(int64(12))+", "+p(nil)+") => "+p("12 <nil>"), "nil among several callback results is the zero value of the declared type (error)")
+	add("applyerr(func(s) { return nil, nil })", "applyerr("+p(int64(0))+", "+p(nil)+") => "+p("0 <nil>"), "nil callback results are zero values")
+	add("applyerr(func(s) { return len(s), anerr })", "applyerr("+p(int64(2))+", "+p(errors.New("E1"))+") => "+p("2 E1"), "an error value returned by a callback arrives as that error")
+	add("applyany(func() { return nil, nil, nil, nil, nil })", "applyany("+p(nil)+", "+p(false)+", "+p(true)+", "+p("")+", "+p([]int64(nil))+") => "+p("<nil>|false|true||true|0"),
+		"nil in every position of a multi-result callback: zero value of each declared type")
+	add("applyany(func() { return 1, true, nil, \"s\", [1, 2] })", "applyany("+p(int64(1))+", "+p(true)+", "+p(true)+", "+p("s")+", "+p([]int64{1, 2})+") => "+p("1|true|true|s|false|2"),
+		"several callback results, one of them nil")
+	add("applyany(func() { return [nil], false, pobj, \"\", [] })", "applyany("+p([]interface{}{nil})+", "+p(false)+", "+p(false)+", "+p("")+", "+p([]int64{})+") => "+p("[<nil>]|false|false||false|0"),
+		"several callback results with a pointer and an empty list")
 	add("applyv(func(xs) { return len(xs) })", "applyv() => "+p(int64(3)), "callback of a variadic func type receives the variadic slice")
 	add("t = 0; each([1, 2, 3], func(x) { t += x }); t", "each("+p([]int64{1, 2, 3})+") => "+p(int64(6)), "callback invoked with the arguments Go passes")
 	add("apply(1, 5)", " => error", "a non-function where a func is wanted")
